@@ -2,6 +2,7 @@
 mod checks;
 mod crash;
 mod coord;
+mod corrupt;
 mod disk;
 mod gen;
 mod model;
